@@ -50,6 +50,74 @@ func genNested(r *RNG, G int64) clip.Paths64 {
 	return ps
 }
 
+// axis-aligned rectangles on a coarse lattice: many shared horizontal edge pieces, so that horizontal
+// joins pinch rings into siblings, with holes and islands next to them
+func genRectSoup(r *RNG, G int64, n int) clip.Paths64 {
+	step := G / 8
+	if step < 1 {
+		step = 1
+	}
+	var ps clip.Paths64
+	for k := 0; k < n; k++ {
+		x0, y0 := r.Range(0, 6)*step, r.Range(0, 6)*step
+		w, h := r.Range(1, 5)*step, r.Range(1, 5)*step
+		p := clip.Path64{{X: x0, Y: y0}, {X: x0 + w, Y: y0}, {X: x0 + w, Y: y0 + h}, {X: x0, Y: y0 + h}}
+		if r.Intn(5) == 0 {
+			p = clip.ReversePath(p)
+		}
+		ps = append(ps, p)
+	}
+	return ps
+}
+
+func rectP(x0, y0, x1, y1 int64) clip.Path64 {
+	return clip.Path64{{X: x0, Y: y0}, {X: x1, Y: y0}, {X: x1, Y: y1}, {X: x0, Y: y1}}
+}
+
+// pinch family: two clip bars, one from above and one from below, that meet (touch, overlap or miss by
+// a unit) along a horizontal line and so cut the subject rectangle into side-by-side pieces, plus small
+// rectangles (holes, or islands inside holes) in the pieces, often aligned with the meeting line
+func genPinch(r *RNG, G int64) (clip.Paths64, clip.Paths64) {
+	u := G / 12
+	if u < 3 {
+		u = 3
+	}
+	W, H := 12*u, 8*u
+	s := clip.Paths64{rectP(0, 0, W, H)}
+	ym := r.Range(2, 6) * u
+	xa := r.Range(2, 8) * u
+	wa, wb := r.Range(1, 3)*u, r.Range(1, 4)*u
+	xb := xa + r.Range(-2, 1)*u
+	gap := []int64{0, 0, 0, 1, -1}[r.Intn(5)]
+	c := clip.Paths64{rectP(xa, -u, xa+wa, ym), rectP(xb, ym+gap, xb+wb, H+u)}
+	for k, nk := 0, 1+r.Intn(3); k < nk; k++ {
+		x0 := r.Range(0, 10) * u
+		y0 := r.Range(1, 6) * u
+		if r.Intn(2) == 0 {
+			y0 = ym
+		}
+		if r.Intn(4) == 0 {
+			y0 = ym - u
+		}
+		hole := rectP(x0+u/3, y0, x0+u, y0+u+r.Range(0, 1)*u)
+		c = append(c, hole)
+		if r.Intn(3) == 0 { // an island inside that hole
+			s = append(s, rectP(x0+u/3+1, y0+1, x0+u-1, y0+u-1))
+		}
+	}
+	if r.Bool() { // mirror top-bottom
+		for _, ps := range []clip.Paths64{s, c} {
+			for i := range ps {
+				for j := range ps[i] {
+					ps[i][j].Y = H - ps[i][j].Y
+				}
+				ps[i] = clip.ReversePath(ps[i])
+			}
+		}
+	}
+	return s, c
+}
+
 func cmdC04(r *RNG, n int, e *Emitter, args []string) {
 	for i := 0; i < n; i++ {
 		takeDiscards()
@@ -57,7 +125,16 @@ func cmdC04(r *RNG, n int, e *Emitter, args []string) {
 		var info GenInfo
 		info.Grid = G
 		var s, c clip.Paths64
-		switch r.Intn(3) {
+		pinch := false
+		switch r.Intn(5) {
+		case 4:
+			s, c = genPinch(r, G)
+			pinch = true
+			info.Kinds = append(info.Kinds, "pinch")
+		case 3:
+			s = genRectSoup(r, G, 1+r.Intn(3))
+			c = genRectSoup(r, G, 2+r.Intn(4))
+			info.Kinds = append(info.Kinds, "rect-soup")
 		case 0:
 			s = genNested(r, G)
 			c = genPathSetN(r, G, 1, 6, &info)
@@ -74,6 +151,9 @@ func cmdC04(r *RNG, n int, e *Emitter, args []string) {
 		fr := clip.FillRule(r.Intn(4))
 		if r.Intn(3) == 0 {
 			fr = clip.EvenOdd
+		}
+		if pinch && r.Intn(3) > 0 {
+			ct = clip.Difference
 		}
 		var flat clip.Paths64
 		var nodes []treeNode
